@@ -166,3 +166,51 @@ Print Assumptions c04_decoded_arguments.
 Print Assumptions c04_rejected_no_call.
 Print Assumptions c04_result_cases.
 Print Assumptions c04_git_example.
+
+(* ------------------------------------------------------------------------------------------
+   Progress: an accepted request is not left unanswered because the pool got stuck by itself
+   (Proofs/ShellProgress.v).  [worker_next s w]: the library-side action worker w can take next
+   (None: idle with an empty queue, exited, or inside an adapter call — whose return is the
+   adapter's move).  The abstraction does not bound the number of adapter calls of a job, so this
+   is enabledness (no deadlock), not a termination bound; at rest every job has ended with exactly
+   one outcome (c04_all_jobs_end, c04_one_outcome_each). *)
+From LS Require Import Proofs.ShellProgress.
+
+(* whatever the worker is about to do is enabled in every reachable state *)
+Theorem c04_worker_next_enabled : forall k h n s w a,
+  sreach k h n s -> sh_exited s = false -> worker_next s w = Some a ->
+  step s (ThWorker w) a <> None.
+Proof. exact worker_next_enabled. Qed.
+
+(* a worker that is neither waiting for work, nor gone, nor inside an adapter call has a move *)
+Theorem c04_worker_can_move : forall k h n s w st,
+  sreach k h n s -> sh_exited s = false -> nth_error (sh_workers s) w = Some st ->
+  st <> KExited -> in_call st = false -> (st = KIdle -> sh_jobs s <> [] \/ sh_shutdown s = true) ->
+  exists a, step s (ThWorker w) a <> None.
+Proof. exact worker_can_move. Qed.
+
+(* accepted jobs are never stranded: while a job is queued, not every worker has exited (both server kinds) *)
+Theorem c04_never_stranded : forall k h n s,
+  sreach k h n s -> (1 <= n)%nat -> sh_jobs s <> [] ->
+  exists w st, nth_error (sh_workers s) w = Some st /\ st <> KExited.
+Proof. exact queued_job_has_a_worker. Qed.
+
+(* with a queued job, unless every live worker is inside an adapter call, some worker can move *)
+Theorem c04_pool_not_stuck : forall k h n s,
+  sreach k h n s -> (1 <= n)%nat -> sh_exited s = false -> sh_jobs s <> [] ->
+  (exists w st, nth_error (sh_workers s) w = Some st /\ st <> KExited /\ in_call st = false) ->
+  exists w a, step s (ThWorker w) a <> None.
+Proof. exact pool_not_stuck. Qed.
+
+(* the writer: in every reachable state a queued line can be taken and a taken line can be written *)
+Theorem c04_writer_can_move : forall k h n s l,
+  sreach k h n s -> sh_exited s = false ->
+  (sh_wpc s = WWait -> sh_outq s <> [] -> step s ThWriter AGet <> None) /\
+  (sh_wpc s = WHand l -> step s ThWriter (ASend true) <> None).
+Proof. exact writer_can_move_reachable_partial. Qed.
+
+Print Assumptions c04_worker_next_enabled.
+Print Assumptions c04_worker_can_move.
+Print Assumptions c04_never_stranded.
+Print Assumptions c04_pool_not_stuck.
+Print Assumptions c04_writer_can_move.
